@@ -91,7 +91,33 @@ fn cmd_run(args: &[String]) -> i32 {
             "samples": o.stats.samples, "rule": o.rule, "wall_s": o.wall_s, "violation": viol_path,
         }));
     }
-    let doc = json!({"property": id, "config": cfgname, "seed": seed, "tier": if tier == Tier::Quick { "quick" } else { "thorough" }, "checks": parts, "violations": violations});
+    // known findings of this property: re-execute each recorded request; report it while it still fails
+    let kf_path = std::env::var("VERIF_KNOWN_FINDINGS").unwrap_or_else(|_| "/verif/known_findings.json".into());
+    let mut known = vec![];
+    if shard == 0 {
+        if let Some(kf) = std::fs::read_to_string(&kf_path).ok().and_then(|s| serde_json::from_str::<Value>(&s).ok()) {
+            for f in kf["findings"].as_array().cloned().unwrap_or_default() {
+                let applies = f["property"].as_str() == Some(id.as_str()) || f["also"].as_array().map(|a| a.iter().any(|x| x.as_str() == Some(id.as_str()))).unwrap_or(false);
+                let cfg_ok = f["configs"].as_array().map(|a| a.iter().any(|x| x.as_str() == Some(cfgname.as_str()))).unwrap_or(true);
+                if !applies || !cfg_ok {
+                    continue;
+                }
+                if let Some(req) = req::Req::from_json(&f["req"]) {
+                    let cname = f["check"].as_str().unwrap_or("");
+                    let pid = f["property"].as_str().unwrap_or("");
+                    for chk in props::checks(pid, tier).unwrap_or_default().iter() {
+                        if chk.name == cname {
+                            if let Err(m) = runner::replay_one(chk, &req) {
+                                println!("KNOWN-FINDING: property={} {} [{}]", id, f["id"].as_str().unwrap_or("?"), f["what"].as_str().unwrap_or(""));
+                                known.push(json!({"id": f["id"], "still_fails_with": m, "config": cfgname}));
+                            }
+                        }
+                    }
+                }
+            }
+        }
+    }
+    let doc = json!({"known_findings": known, "property": id, "config": cfgname, "seed": seed, "tier": if tier == Tier::Quick { "quick" } else { "thorough" }, "checks": parts, "violations": violations});
     match out {
         Some(p) => std::fs::write(p, serde_json::to_string_pretty(&doc).unwrap()).expect("write out"),
         None => println!("{}", serde_json::to_string_pretty(&doc).unwrap()),
